@@ -1,4 +1,5 @@
 import Pkgcore.Spec.C02
+import Pkgcore.Proofs.C01
 /-! helper lemmas for C02 -/
 namespace Pkgcore.C02
 open Pkgcore.C01 Pkgcore.C01.Spec Pkgcore.C02.Spec Std
